@@ -27,6 +27,9 @@ type report struct {
 	FieldReads       int      `json:"field_reads_instrumented"`
 	FieldWrites      int      `json:"field_writes_instrumented"`
 	SliceOps         int      `json:"slice_copy_append_range_instrumented"`
+	ElemAccesses     int      `json:"slice_element_index_accesses_instrumented"`
+	MapAccesses      int      `json:"map_accesses_instrumented"`
+	Globals          int      `json:"package_level_variables_restored_before_each_execution"`
 	SkippedImpure    []string `json:"accesses_skipped_impure_or_unaddressable"`
 	ChannelPoints    []string `json:"channel_scheduling_points"`
 	OwnedMapRanges   []string `json:"owned_map_ranges"`
@@ -141,9 +144,25 @@ func main() {
 			overlay[filepath.Join(*repo, "zverif", "vsched", e.Name())] = filepath.Join(*vs, e.Name())
 		}
 	}
+	afiles, _ := os.ReadDir(filepath.Join(*vs, "vatomic"))
+	for _, e := range afiles {
+		if strings.HasSuffix(e.Name(), ".go") && !strings.HasSuffix(e.Name(), "_test.go") {
+			overlay[filepath.Join(*repo, "zverif", "vsched", "vatomic", e.Name())] = filepath.Join(*vs, "vatomic", e.Name())
+		}
+	}
 	// marker file in package restful under the guard tag
 	marker := filepath.Join(*out, "zz_verif_overlay.go")
-	os.WriteFile(marker, []byte("//go:build verif\n\npackage restful\n\n// VerifInstrumented reports that the E3 instrumentation overlay is compiled in.\nfunc VerifInstrumented() bool { return true }\n"), 0o644)
+	// every package-level variable of the package, by address: the explorer restores their values
+	// before each execution (vsched.GlobalSnapshot)
+	var globals []string
+	for _, name := range pkg.Scope().Names() {
+		if v, ok := pkg.Scope().Lookup(name).(*types.Var); ok && name != "_" {
+			_ = v
+			globals = append(globals, "&"+name)
+		}
+	}
+	rep.Globals = len(globals)
+	os.WriteFile(marker, []byte("//go:build verif\n\npackage restful\n\n// VerifInstrumented reports that the E3 instrumentation overlay is compiled in.\nfunc VerifInstrumented() bool { return true }\n\n// VerifGlobals lists the package-level variables of the package by address.\nfunc VerifGlobals() []interface{} {\n\treturn []interface{}{"+strings.Join(globals, ", ")+"}\n}\n"), 0o644)
 	overlay[filepath.Join(*repo, "zz_verif_overlay.go")] = marker
 	for l := range locs {
 		rep.Locations = append(rep.Locations, l)
@@ -187,6 +206,10 @@ func (in *instr) run() {
 			is.Name = ast.NewIdent("sync")
 			is.Path.Value = `"` + shimPath + `"`
 			in.rep.SyncFiles = append(in.rep.SyncFiles, in.fname)
+		case "sync/atomic":
+			is.Name = ast.NewIdent("atomic")
+			is.Path.Value = `"` + shimPath + `/vatomic"`
+			in.rep.SyncFiles = append(in.rep.SyncFiles, in.fname+" (sync/atomic)")
 		case "time", "math/rand", "crypto/rand":
 			in.rep.Nondeterminism = append(in.rep.Nondeterminism, in.fname+": "+is.Path.Value)
 		case "unsafe":
@@ -393,10 +416,43 @@ func (in *instr) stmt(s ast.Stmt, elseIf bool) (pre, post []ast.Stmt) {
 	post = append(post, in.chanSyncs(s)...)
 	// copy / append / range over slices -> element-level accesses
 	pre = append(pre, in.sliceOps(s, reads, defined)...)
+	// delete(m, k) writes the map, range over a map reads it (a map is one location)
+	mapSite := func(m ast.Expr, at ast.Node) (accessSite, bool) {
+		tv, ok := in.info.Types[m]
+		if !ok || !in.pure(m, defined) {
+			return accessSite{}, false
+		}
+		if _, isMap := tv.Type.Underlying().(*types.Map); !isMap {
+			return accessSite{}, false
+		}
+		in.rep.MapAccesses++
+		name := "map " + types.TypeString(tv.Type, func(p *types.Package) string { return p.Name() })
+		in.locs[name] = true
+		return accessSite{expr: m, name: name, pos: in.pos(at), isMap: true}, true
+	}
+	if es, ok := s.(*ast.ExprStmt); ok {
+		if ce, ok := es.X.(*ast.CallExpr); ok && len(ce.Args) == 2 {
+			if id, ok := ce.Fun.(*ast.Ident); ok && id.Name == "delete" {
+				if _, builtin := in.info.Uses[id].(*types.Builtin); builtin {
+					if acc, ok := mapSite(ce.Args[0], ce); ok {
+						pre = append(pre, in.call("WriteF", acc))
+					}
+				}
+			}
+		}
+	}
+	if rs, ok := s.(*ast.RangeStmt); ok {
+		if acc, ok := mapSite(rs.X, rs); ok {
+			pre = append(pre, in.call("ReadF", acc))
+		}
+	}
 	seen := map[string]bool{}
 	for _, e := range reads {
 		for _, acc := range in.accesses(e, defined) {
 			key := exprString(in.fset, acc.expr)
+			if acc.isMap {
+				key = "map:" + key
+			}
 			if seen[key] {
 				continue
 			}
@@ -434,16 +490,35 @@ func (in *instr) funcLits(e ast.Expr) {
 }
 
 type accessSite struct {
-	expr ast.Expr
-	name string
-	pos  string
+	expr  ast.Expr
+	name  string
+	pos   string
+	isMap bool // expr is a map value; the location is the map itself
 }
 
 // accesses finds the shared-location reads inside e (not descending into function literals).
+// Struct fields and package variables are recorded wherever they occur; elements of slices and
+// maps (index expressions) only where the statement evaluates them unconditionally - not in the
+// right operand of && / || - so that an access the program may not perform is never recorded.
 func (in *instr) accesses(e ast.Expr, defined map[types.Object]bool) []accessSite {
 	var out []accessSite
 	if e == nil {
 		return nil
+	}
+	var conditional []ast.Node
+	ast.Inspect(e, func(n ast.Node) bool {
+		if b, ok := n.(*ast.BinaryExpr); ok && (b.Op == token.LAND || b.Op == token.LOR) {
+			conditional = append(conditional, b.Y)
+		}
+		return true
+	})
+	isConditional := func(n ast.Node) bool {
+		for _, c := range conditional {
+			if c.Pos() <= n.Pos() && n.End() <= c.End() {
+				return true
+			}
+		}
+		return false
 	}
 	ast.Inspect(e, func(n ast.Node) bool {
 		switch x := n.(type) {
@@ -456,6 +531,11 @@ func (in *instr) accesses(e ast.Expr, defined map[types.Object]bool) []accessSit
 					out = append(out, in.accesses(se.X, defined)...)
 					return false
 				}
+				if ie, ok := x.X.(*ast.IndexExpr); ok {
+					out = append(out, in.accesses(ie.X, defined)...)
+					out = append(out, in.accesses(ie.Index, defined)...)
+					return false
+				}
 				if _, ok := x.X.(*ast.Ident); ok {
 					return false
 				}
@@ -463,6 +543,12 @@ func (in *instr) accesses(e ast.Expr, defined map[types.Object]bool) []accessSit
 		case *ast.SelectorExpr, *ast.Ident:
 			if acc, ok := in.access(x.(ast.Expr), defined); ok {
 				out = append(out, acc)
+			}
+		case *ast.IndexExpr:
+			if !isConditional(x) {
+				if acc, ok := in.access(x, defined); ok {
+					out = append(out, acc)
+				}
 			}
 		}
 		return true
@@ -496,7 +582,7 @@ func (in *instr) access(e ast.Expr, defined map[types.Object]bool) (accessSite, 
 		if i := strings.LastIndex(recv, "."); i >= 0 {
 			recv = recv[i+1:]
 		}
-		return accessSite{x, recv + "." + v.Name(), in.pos(x)}, true
+		return accessSite{expr: x, name: recv + "." + v.Name(), pos: in.pos(x)}, true
 	case *ast.Ident:
 		o := in.info.Uses[x]
 		v, ok := o.(*types.Var)
@@ -506,7 +592,24 @@ func (in *instr) access(e ast.Expr, defined map[types.Object]bool) (accessSite, 
 		if isSyncType(v.Type()) {
 			return accessSite{}, false
 		}
-		return accessSite{x, "var " + v.Name(), in.pos(x)}, true
+		return accessSite{expr: x, name: "var " + v.Name(), pos: in.pos(x)}, true
+	case *ast.IndexExpr:
+		tv, ok := in.info.Types[x.X]
+		if !ok || !in.pure(x.X, defined) || !in.pure(x.Index, defined) {
+			return accessSite{}, false
+		}
+		short := func(t types.Type) string {
+			return types.TypeString(t, func(p *types.Package) string { return p.Name() })
+		}
+		switch tv.Type.Underlying().(type) {
+		case *types.Slice:
+			in.rep.ElemAccesses++
+			return accessSite{expr: x, name: "element of " + short(tv.Type), pos: in.pos(x)}, true
+		case *types.Map:
+			// a map is observed as one location: any write to it conflicts with any other access
+			in.rep.MapAccesses++
+			return accessSite{expr: x.X, name: "map " + short(tv.Type), pos: in.pos(x), isMap: true}, true
+		}
 	}
 	return accessSite{}, false
 }
@@ -551,6 +654,9 @@ func (in *instr) call(fn string, acc accessSite) ast.Stmt {
 	in.needVS = true
 	in.needUnsafe = true
 	src := fmt.Sprintf("vsched.%s(func() uintptr { return uintptr(unsafe.Pointer(&%s)) }, %q, %q)", fn, exprString(in.fset, acc.expr), acc.name, acc.pos)
+	if acc.isMap {
+		src = fmt.Sprintf("vsched.%s(func() uintptr { return vsched.MapPtr(%s) }, %q, %q)", fn, exprString(in.fset, acc.expr), acc.name, acc.pos)
+	}
 	ex, err := parser.ParseExpr(src)
 	if err != nil {
 		fatal(fmt.Errorf("cannot build instrumentation call %s: %v", src, err))
